@@ -164,24 +164,10 @@ def gen_program(rng, size_class):
 
 def run(args):
     res = common.Result("C04", args.tier, args.seed, "proof")
-    from translate import tables
-    proof_problems = []
-    try:
-        bdir = common.repo_build("hooks")
-    except common.BuildError as ex:
-        res.violation("build.json", dict(kind="build-failure", detail=str(ex)), no_input=True)
-        res.coverage = dict(obligations=1, discharged=0, checker_cmd="lake build AslModel.Props.C04", trusted_base=[], explanation="repo does not build")
+    bdir, audit, proof_problems = common.standard_setup(res, "C04", ["FileFormat"])
+    if bdir is None:
         return res.finish()
-    try:
-        tables.regenerate(bdir, ["FileFormat"])
-    except tables.ExtractError as ex:
-        proof_problems.append("translator: " + str(ex))
-    ok, out = common.lean_build(["asldrv"])
-    audit = common.lean_audit("C04")
-    if not audit["ok"]:
-        proof_problems += audit["problems"]
-    if not ok:
-        proof_problems.append("driver does not build: " + out[-1500:])
+    ok = not any(p.startswith("driver does not build") for p in proof_problems)
 
     # ---- correspondence (B) and spec-on-impl (C)
     n_prog = {"quick": 260, "thorough": 3000}[args.tier]
@@ -240,25 +226,30 @@ def run(args):
             if kv.get("l2") != "eq":
                 proof_problems.append("model-internal: L1 file != serialise(L2) on " + tag)
 
-    theorems = audit["theorems"]
-    res.coverage = dict(
-        obligations=audit["obligations"], discharged=audit["discharged"],
-        checker_cmd="lake build AslModel.Props.C04 && lake env lean Audit/C04.lean (#print axioms)",
-        trusted_base=["Lean 4 kernel", "axioms: " + ",".join(sorted({a for v in audit["axioms"].values() for a in v}) or ["none"]),
-                      "translate/tables.py (Granularity table, fileformat.h constants via compiled dumper)",
-                      "correspondence: real asl vs Model.CodeFile L1 on generated programs (differential test)"],
-        theorems=theorems,
+    res.coverage = common.proof_coverage(audit, "C04", [
+        "translate/tables.py (Granularity table, fileformat.h constants via compiled dumper)",
+        "correspondence: real asl vs Model.CodeFile L1 on generated programs (differential test)"])
+    res.coverage.update(
         evaluations=len(reqs), distinct_nontrivial=len([t for t in distinct if t.count("e:") >= 1]),
         rule="random data/reservation/ORG/SEGMENT/CPU/END programs over 7 targets (gran 1/2/4), lengths from pools around 511/512/513, 1023..1025, 65534/65535; non-trivial = at least one emitting statement; distinct by event list",
-        samples=samples, distribution=agg, disagreements_checked=len(corr_fail), spec_failures=len(spec_fail),
-    )
+        samples=samples, distribution=agg)
     res.assumptions = ["generator's byte encoding of data statements (little-endian words on PIC/C3x) is the oracle for what the source specifies",
                        "creator string is not compared (taken from the real file)"]
-    for i, sfail in enumerate(spec_fail[:5]):
-        res.violation("spec_%d.json" % i, dict(kind="property-violated-on-implementation", **sfail))
-    if not spec_fail:
-        for i, c in enumerate(corr_fail[:3]):
-            res.violation("corr_%d.json" % i, dict(kind="correspondence-broken", correspondence="asl .p bytes == Model.CodeFile.writeCodeFile", **c), no_input=True)
-        if proof_problems:
-            res.violation("proof.json", dict(kind="proof-broken", problems=proof_problems, searched=len(reqs)), no_input=True)
-    return res.finish()
+    return common.conclude(res, proof_problems, spec_fail, corr_fail, len(reqs))
+
+
+def replay(args):
+    import json
+    d = json.load(open(args.replay))
+    print(json.dumps({k: (v if len(str(v)) < 2000 else str(v)[:2000] + "...") for k, v in d.items()}, indent=1))
+    if "source" in d:
+        bdir = common.repo_build("hooks")
+        with common.Workdir("c04r") as wd:
+            f = os.path.join(wd, "r.asm")
+            open(f, "w").write(d["source"])
+            rc, so, se = common.run_tool(bdir, "asl", ["-q", "-i", os.path.join(common.REPO, "include"), f, "-o", os.path.join(wd, "r.p")], wd)
+            print("asl rc =", rc, (so + se).decode(errors="replace")[-500:])
+            if os.path.exists(os.path.join(wd, "r.p")) and "request_tail" in d:
+                fb = open(os.path.join(wd, "r.p"), "rb").read()
+                print(common.driver("c04", [fb.hex() + " " + d["request_tail"]])[0][:300])
+    return 0
